@@ -410,7 +410,7 @@ impl Scenario for C16Procs {
 					args.push("--ext-str".to_owned());
 					args.push(format!("{k}={s}"));
 				}
-				Arg::Code(c) => {
+				Arg::Code(c) | Arg::Val(c) => {
 					args.push("--ext-code".to_owned());
 					args.push(format!("{k}={c}"));
 				}
@@ -422,7 +422,7 @@ impl Scenario for C16Procs {
 					args.push("--tla-str".to_owned());
 					args.push(format!("{k}={s}"));
 				}
-				Arg::Code(c) => {
+				Arg::Code(c) | Arg::Val(c) => {
 					args.push("--tla-code".to_owned());
 					args.push(format!("{k}={c}"));
 				}
